@@ -556,6 +556,12 @@ func (f *frame) execInstr(ins ssa.Instruction) {
 	case *ssa.MakeMap:
 		r := u.alloc(f.cur, types.NewPointer(types.NewArray(types.Typ[types.Int], 0)))
 		f.vals[ins] = Term{r.S, u.tc.sortOf(ins.Type())}
+		if mt, ok := ins.Type().Underlying().(*types.Map); ok {
+			// a new map is empty
+			_, has := u.mapFuncs(mt)
+			ep := u.ghost(f.cur, "mapEpoch", sInt)
+			u.assume(Term{fmt.Sprintf("(forall ((q_k %[1]s)) (! (not (%[2]s %[3]s %[4]s q_k)) :pattern ((%[2]s %[3]s %[4]s q_k))))", u.tc.smt(u.tc.sortOf(mt.Key())), has, r.S, ep.S), sBool})
+		}
 	case *ssa.MakeChan:
 		// a channel is an opaque fresh object (nothing is sent or received in the modelled subset)
 		r := u.alloc(f.cur, types.NewPointer(types.NewArray(types.Typ[types.Int], 0)))
@@ -568,7 +574,31 @@ func (f *frame) execInstr(ins ssa.Instruction) {
 	case *ssa.MapUpdate:
 		f.mapUpdate(ins)
 	case *ssa.Range:
-		f.bad("range over map/string not supported")
+		if _, ok := ins.X.Type().Underlying().(*types.Map); !ok {
+			f.bad("range over a string not supported")
+		}
+		f.vals[ins] = f.value(ins.X) // the iterator stands for the map
+	case *ssa.Next:
+		// one step of a range over a map: either the iteration is over, or some key that is present and its value
+		// are delivered. Which keys, in which order, and that every key is visited once are NOT modelled: what is
+		// proved about such a loop holds for any sequence of present keys.
+		if ins.IsString {
+			f.bad("range over a string not supported")
+		}
+		rg, isRange := ins.Iter.(*ssa.Range)
+		mterm, okT := f.value(ins.Iter).(Term)
+		if !isRange || !okT {
+			f.bad("next on an unsupported iterator")
+		}
+		mt := rg.X.Type().Underlying().(*types.Map)
+		get, has := u.mapFuncs(mt)
+		ep := u.ghost(f.cur, "mapEpoch", sInt)
+		okv := u.declare(f.key+"_next_ok", sBool)
+		k := u.declare(f.key+"_next_k", u.tc.sortOf(mt.Key()))
+		v := u.declare(f.key+"_next_v", u.tc.sortOf(mt.Elem()))
+		u.assume(implies(okv, Term{fmt.Sprintf("(and (%s %s %s %s) (= %s (%s %s %s %s)))", has, mterm.S, ep.S, k.S, v.S, get, mterm.S, ep.S, k.S), sBool}))
+		u.note("range over a map in %s: any sequence of present keys (order, completeness and termination of the iteration are not modelled)", f.key)
+		f.vals[ins] = Tuple{okv, k, v}
 	default:
 		f.bad("unsupported instruction %T: %s", ins, ins)
 	}
